@@ -1,4 +1,4 @@
-(* C13, popcount: what the oracle verdict means, and the widths settled by exhaustive evaluation of the model. *)
+(* C13, popcount: counting lemmas and what a positive oracle verdict means (the all-width proof is LogicPopAll.v). *)
 From Coq Require Import Ascii.
 From stdpp Require Import strings gmap sets fin_sets pretty numbers.
 From CG Require Export Proofs.LogicKit.
@@ -39,21 +39,4 @@ Proof.
   intros v1 v2 Heq. f_equal.
   - apply bitsN_ext. intros i Hi. apply Heq. eapply names_in_dom; [exact Hout|apply outputs_dom|done].
   - apply onesN_ext. intros i Hi. apply Heq. eapply names_in_dom; [exact Hin|apply inputs_dom|done].
-Qed.
-
-(* widths 1..4: the model's circuit passes the exhaustive evaluation (this is a proof for those widths only) *)
-Definition popcount_checked (w : nat) : bool :=
-  match popcount w with Ok C => popcount_ok w (c_g C) && lint_cleanb C | _ => false end.
-Lemma popcount_small_checked : forallb popcount_checked [1; 2; 3; 4] = true.
-Proof. vm_compute. reflexivity. Qed.
-Lemma popcount_small w C v : 1 ≤ w ≤ 4 → popcount w = Ok C → consistent (c_g C) v →
-  bitsN v "out_" (size (outputs (c_g C))) = onesN v "in_" w ∧ lint_clean C.
-Proof.
-  intros Hw HC Hv. pose proof popcount_small_checked as H. rewrite forallb_forall in H.
-  specialize (H w). rewrite <- elem_of_list_In in H.
-  assert (Hin : w ∈ [1; 2; 3; 4]).
-  { assert (w = 1 ∨ w = 2 ∨ w = 3 ∨ w = 4) as [-> | [-> | [-> | ->]]] by lia;
-      repeat first [apply elem_of_list_here | apply elem_of_list_further]. }
-  specialize (H Hin). unfold popcount_checked in H. rewrite HC in H. apply andb_true_iff in H as [H1 H2].
-  split; [by apply popcount_ok_sound|]. unfold lint_cleanb in H2. by apply bool_decide_eq_true in H2.
 Qed.
